@@ -33,6 +33,20 @@ func embeddable(src string) bool {
 	return !strings.Contains(src, "${{")
 }
 
+// embeddableOpen: a placeholder that is never closed (no `}}` up to the end of the scalar): the
+// lexer reaches the end of the text, which is one syntax diagnostic like any other
+func embeddableOpen(src string) bool {
+	if strings.Contains(src, "}}") || !utf8.ValidString(src) || src != strings.TrimRight(src, " ") {
+		return false
+	}
+	for _, r := range src {
+		if r < 32 || r == 127 || r == '#' || r == ':' || r == 0xfeff || r == 0x2028 || r == 0x85 || r == 0xa0 {
+			return false
+		}
+	}
+	return !strings.Contains(src, "${{")
+}
+
 // the same text as an `if:` condition written without ${{ }} (rule_expression.go
 // appends the end marker itself)
 const ifPrefix = "on: push\njobs:\n  j:\n    runs-on: ubuntu-latest\n    steps:\n      - run: echo\n        if: "
@@ -62,7 +76,7 @@ func ifEmbeddable(src string) (string, bool) {
 }
 
 // ifQuoted: texts that cannot be written as a plain scalar (leading / trailing / only
-// white space, a leading digit or operator ...) are written single-quoted ('' for ').
+// white space, a leading digit or operator ...) are written single-quoted (” for ').
 // Returns the scalar, the text and whether the column of a diagnostic at byte offset
 // off of the text is still off + 1 columns after the opening quote.
 func ifQuoted(src string) (scalar, text string, ok bool) {
